@@ -313,6 +313,7 @@ type State struct {
 	frames        []*Frame
 	ghosts        map[string]Val
 	inlCallSeen   map[string]int // calls made from inlined helpers so far, per callee name (copy on write)
+	inPlaceForks  int            // how often this path has explored the in-place outcome of an append (capped)
 	closures      map[string]VFunc
 	trail         []string
 	written       map[string]bool
